@@ -6,6 +6,7 @@ import (
 	"strings"
 	"sync"
 
+	"verif/engine/batch"
 	"verif/engine/gast"
 	"verif/engine/mon"
 	"verif/engine/ref"
@@ -312,11 +313,72 @@ func C08(c *Ctx) {
 	}
 	c.runKnownF06()
 	c.runKnownF24()
+	c.c08DebugPass(gs, rng)
 	c.runKnownF22()
 	c.DiffCheck(cfg)
 }
 
 // runKnownF06 executes the fixed witness of known finding F06.
+// c08DebugPass: Debug(true) (alone and with Memoize) on inputs where one left-recursive match spans
+// 30-300 bytes; the trace is written, not looked at - value, errors, consumed prefix and the input
+// buffer must be what the same parse gives without the option.
+func (c *Ctx) c08DebugPass(gs []*gast.Grammar, rng *rand.Rand) {
+	if n := c.N(24, 160); len(gs) > n {
+		gs = gs[:n]
+	}
+	bt := c.BuildUnits(gs, [][]string{{"-support-left-recursion"}}, false, func(int) bool { return true })
+	defer bt.Close()
+	var cases []*mon.Case
+	type k struct {
+		u  *Unit
+		in []byte
+	}
+	var keys []k
+	for _, u := range bt.Units {
+		if !u.OK {
+			continue
+		}
+		var ins [][]byte
+		for _, in := range lrInputs(u.G, rng, 40) {
+			if len(in) >= 30 && len(in) <= 300 {
+				ins = append(ins, in)
+			}
+		}
+		// chains whose growth steps end 38-46 bytes after the start of the rule
+		for n := 17; n <= 24; n++ {
+			ins = append(ins, []byte("1"+strings.Repeat("+2", n)), []byte("("+strings.Repeat("1+", n)+"1)+1"), []byte("100"+strings.Repeat("+200", n/2)))
+		}
+		if len(ins) > 24 {
+			ins = ins[:24]
+		}
+		for _, in := range ins {
+			i := len(keys)
+			keys = append(keys, k{u, in})
+			cases = append(cases, &mon.Case{ID: fmt.Sprintf("d/%d/p", i), Pkg: u.Pkg, Input: in, MaxExpr: 3000000, MaxEvents: 20, NoTrace: true},
+				&mon.Case{ID: fmt.Sprintf("d/%d/d", i), Pkg: u.Pkg, Input: in, Debug: true, MaxExpr: 3000000, MaxEvents: 20, NoTrace: true},
+				&mon.Case{ID: fmt.Sprintf("d/%d/m", i), Pkg: u.Pkg, Input: in, Debug: true, Memo: true, MaxExpr: 3000000, MaxEvents: 20, NoTrace: true})
+		}
+	}
+	res := bt.Run(cases, batch.RunOpts{MaxDeaths: 4})
+	for i, ky := range keys {
+		p := res[fmt.Sprintf("d/%d/p", i)]
+		for _, v := range []string{"d", "m"} {
+			r := res[fmt.Sprintf("d/%d/%s", i, v)]
+			c.Eval(1)
+			if p == nil || r == nil || p.Timeout || r.Timeout {
+				c.Inconclusive("no_result")
+				continue
+			}
+			c.CovAdd("debug_runs_on_long_left_recursive_matches", 1)
+			if r.Val != p.Val || r.ErrStr != p.ErrStr || r.End != p.End || r.InputChanged || r.Panic != p.Panic {
+				what := map[string]string{"d": "Debug(true)", "m": "Debug(true)+Memoize(true)"}[v]
+				c.Report(&Violation{Class: "C08/debug-changes-result", Summary: fmt.Sprintf("with %s a left-recursive parse returns %s / %q (end %d, input buffer touched: %t), without it %s / %q (end %d); input %q grammar %q",
+					what, trunc(r.Val), trunc(r.ErrStr), r.End, r.InputChanged, trunc(p.Val), trunc(p.ErrStr), p.End, ky.in, gast.Short(ky.u.G)), Grammar: ky.u.Text, Flags: ky.u.Flags, Input: ky.in})
+			}
+		}
+	}
+}
+
 // runKnownF24 executes the witness of known finding F24: a two-rule left-recursive cycle entered
 // through the rule that is NOT the leader pigeon selects (the alphabetically first candidate). The
 // leader is grown greedily and its longest result is the only one the entered rule gets to see, so
